@@ -736,7 +736,13 @@ func (x *Exec) evalCall(env *Env, e *SExpr) Val {
 		return x.monitorPred(env, name, e.Args)
 	case "fresh":
 		v := arg(0)
-		return mathVal(Ge(v.L[0], Var("brk@0", IntS)))
+		r := v.L[0]
+		if v.T != nil {
+			if _, isI := v.T.Underlying().(*types.Interface); isI {
+				r = v.L[1]
+			}
+		}
+		return mathVal(Ge(r, Var("brk@0", IntS)))
 	case "typeis":
 		v := arg(0)
 		return mathVal(Eq(v.L[0], x.E.typeTagByName(env.pkgPath, e.Args[1].String())))
